@@ -7,5 +7,6 @@ INVARIANTS
   P_C08_ImplSet
   P_C08_RoundTrip
   P_C08_Order
+  P_C08_IntoMerge
   Emit
 CHECK_DEADLOCK FALSE
